@@ -1,0 +1,57 @@
+//go:build verif
+
+// Verification hook for property C07 (build tag `verif` only): add-only accessors, no behaviour change.
+package model
+
+import (
+	"k8s.io/apimachinery/pkg/types"
+
+	"istio.io/istio/pkg/config"
+
+	"istio.io/istio/pkg/config/host"
+)
+
+// VerifC07ServicesExportedToNamespace exposes servicesExportedToNamespace (the scan-path candidate list).
+func VerifC07ServicesExportedToNamespace(ps *PushContext, ns string) []*Service {
+	return ps.servicesExportedToNamespace(ns)
+}
+
+// VerifC07ServiceExportTo exposes serviceExportTo (effective exportTo set of a service), sorted.
+func VerifC07ServiceExportTo(ps *PushContext, s *Service) []string {
+	var out []string
+	for e := range ps.serviceExportTo(s) {
+		out = append(out, string(e))
+	}
+	return out
+}
+
+// VerifC07ConvertToSidecarScope exposes convertToSidecarScope and forces the lazy initialisation.
+func VerifC07ConvertToSidecarScope(ps *PushContext, sidecarConfig *config.Config, configNamespace string) *SidecarScope {
+	sc := convertToSidecarScope(ps, sidecarConfig, configNamespace)
+	sc.initFunc()
+	return sc
+}
+
+// VerifC07ScopeDestinationRules exposes the hostname -> consolidated DestinationRules map of a scope.
+func VerifC07ScopeDestinationRules(sc *SidecarScope) map[host.Name][]*ConsolidatedDestRule {
+	return sc.destinationRules
+}
+
+// VerifC07DestinationRule exposes PushContext.destinationRule.
+func VerifC07DestinationRule(ps *PushContext, proxyNamespace string, s *Service) []*ConsolidatedDestRule {
+	return ps.destinationRule(proxyNamespace, s)
+}
+
+// VerifC07ConsolidatedExportTo returns the exportTo set recorded on a consolidated DestinationRule.
+func VerifC07ConsolidatedExportTo(c *ConsolidatedDestRule) []string {
+	var out []string
+	for e := range c.exportTo {
+		out = append(out, string(e))
+	}
+	return out
+}
+
+// VerifC07From returns the names of the DestinationRules merged into a consolidated rule.
+func VerifC07From(c *ConsolidatedDestRule) []types.NamespacedName {
+	return c.from
+}
